@@ -916,3 +916,131 @@ def unop_neg(x):
 
 
 from ..mirsym.values import INT_W  # noqa: E402
+
+
+# ----------------------------------------------------------------------------------------------------
+# C01.l : UnpackStrings - query-side decoding of packed string columns, batch by batch
+# ----------------------------------------------------------------------------------------------------
+from ..mirsym.models import seq_of  # noqa: E402
+
+
+class UnpackStringsSpec(KernelSpec):
+    """UnpackStrings::init then ::execute(streaming = true) repeatedly, as the executor drives a streaming producer: the batches,
+    concatenated, are exactly the packed strings in order; no batch exceeds batch_size; has_more turns false after the last
+    string.  shape = (string lengths, batch_size)"""
+    diff_cases = 2
+
+    def get_fn(self, ctx, inst):
+        return None
+
+    def instantiations(self, tier):
+        return [{"nat": "op_unpack_strings"}]
+
+    def shapes(self, tier, inst):
+        out = [((1, 0, 2), 2), ((2, 1), 2), ((1,), 4), ((), 2), ((1, 1, 1, 1), 2)]
+        if tier == "thorough":
+            out += [((254, 255), 1), ((1, 2, 3), 1), ((0, 0, 0), 3), ((256,), 2)]
+        return out
+
+    def sym_inputs(self, inst, shape):
+        lens, bs = shape
+        return {"strs": [[sym("u8", f"s{i}_{j}") if j in (0, n - 1) else I("u8", 0x61 + (j % 26)) for j in range(n)] for i, n in enumerate(lens)]}, []
+
+    def packed(self, strs):
+        out = []
+        for s in strs:
+            n = len(s)
+            while n > 254:
+                out.append(I("u8", 255))
+                n -= 255
+            out.append(I("u8", n))
+            out += list(s)
+        return out
+
+    def explore(self, ctx, ex, fn, inst, shape, inp, pre):
+        lens, bs = shape
+        ex.stubs = scratch_stubs() + extra_scratch_stubs()
+        fs = ctx.src().struct_fields("UnpackStrings")
+        if fs is None or set(fs) != {"packed", "unpacked", "iterator", "has_more"}:
+            raise interp.Unsupported(f"UnpackStrings has unexpected fields {fs}")
+        named = {"packed": bufref(ctx, 0), "unpacked": bufref(ctx, 1), "iterator": Agg("enum", [], name="Option", variant="None"), "has_more": I("bool", 1)}
+        op = Agg("struct", [named[f] for f in fs], name="UnpackStrings")
+        b = Buffers()
+        b.vec(0, self.packed(inp["strs"]), "u8")
+        b.vec(1, [], "&str")
+        env = {"bufs": b, "op": Cell(op), "batches": Cell(VecObj([]))}
+        init = ex.resolve_method("UnpackStrings", "VecOperator", "init")
+        exe = ex.resolve_method("UnpackStrings", "VecOperator", "execute")
+        if init is None or exe is None:
+            raise interp.Unsupported("UnpackStrings::{init,execute} not found")
+        self._fs = fs
+        sp = lambda: Ref(Cell(Opaque("scratchpad")), (), None, False, True)
+        opref = lambda env: Ref(env["op"], (), None, False, True)
+        calls = [(init[0], lambda env: [opref(env), I("usize", 0), I("usize", bs), sp()], dict(init[1]))]
+        rounds = (len(lens) // bs) + 2
+
+        def snapshot(env):
+            if env["op"].v.fields[fs.index("has_more")].concrete:
+                pass
+            out = env["bufs"].b[1]["data"].v
+            env["batches"].v.elems.append(VecObj(list(out.elems)))
+        for k in range(rounds):
+            def build(env, k=k):
+                if k > 0:
+                    snapshot(env)
+                return [opref(env), I("bool", 1), sp()]
+            calls.append((exe[0], build, dict(exe[1])))
+        outs = run_sequence(ex, pre, env, calls)
+        for o in outs:
+            if o.kind != "panic":
+                snapshot(o.st.env)
+        return outs
+
+    def view(self, x):
+        if isinstance(x, dict):
+            return x
+        env = x.env
+        batches = []
+        for bv in env["batches"].v.elems:
+            one = []
+            for r in bv.elems:
+                el, lo, hi = seq_of(r)
+                one.append(list(el[lo:hi]))
+            batches.append(one)
+        return {"batches": batches, "has_more": env["op"].v.fields[self._fs.index("has_more")]}
+
+    def post(self, inst, shape, inp, value, state=None):
+        lens, bs = shape
+        v = self.view(state if state is not None else value)
+        flat = [s for b in v["batches"] for s in b]
+        conds = [("no batch exceeds batch_size", B(all(len(b) <= bs for b in v["batches"]))),
+                 ("all strings are produced (concatenated batches have one entry per packed string)", B(len(flat) == len(lens))),
+                 ("has_more is false once the strings are exhausted", binop("Eq", v["has_more"], B(False)))]
+        if len(flat) != len(lens):
+            return conds
+        for i, (g, w) in enumerate(zip(flat, inp["strs"])):
+            conds.append((f"string {i} comes back byte for byte, in order", band(B(len(g) == len(w)), *[binop("Eq", a, b) for a, b in zip(g, w)])))
+        return conds
+
+    def panic_ok(self, inst, shape, inp, msg):
+        return B(False)
+
+    def random_inputs(self, rng, inst, shape):
+        inp, _ = self.sym_inputs(inst, shape)
+        return {"strs": [[x if x.concrete else I("u8", rng.randint(0x41, 0x7a)) for x in s] for s in inp["strs"]]}
+
+    def native(self, inst, shape, inp):
+        if inp is None:
+            return ("op_unpack_strings", [])
+        lens, bs = shape
+        rounds = (len(lens) // bs) + 2
+        return ("op_unpack_strings", [",".join(bytes(b.v for b in s).hex() or "_" for s in inp["strs"]) or "-", bs, rounds])
+
+    def parse_native(self, inst, shape, toks):
+        batches = []
+        for b in toks[1].split("|"):
+            batches.append([] if b == "-" else [[I("u8", x) for x in (bytes.fromhex(h) if h != "_" else b"")] for h in b.split(",")])
+        return {"batches": batches, "has_more": I("bool", toks[0] == "true")}
+
+    def native_view(self, inst, shape, v, st):
+        return self.view(st)
